@@ -552,6 +552,9 @@ def reshape(self, *newdims, **kwargs):
 
     assert len(newdims_unflattened) == len(set(newdims_unflattened)), "must not contain duplicate axes !"
 
+    if any(',' in ax.name for ax in o.axes):
+        # rename copies: the Axis objects may be shared with `self` or other arrays
+        o = o._constructor(o.values, [ax.copy() if ',' in ax.name else ax for ax in o.axes], **o.attrs)
     for ax in o.axes:
         ax.name = ax.name.replace(',',';')
 
